@@ -15,7 +15,7 @@ import sys
 import threading
 import time
 
-OUTCOMES = ('done', 'failed', 'raise', 'none', 'notpair', 'badstatus', 'badupdate', 'emptybadupdate', 'waiting', 'corrupt')
+OUTCOMES = ('done', 'failed', 'raise', 'none', 'notpair', 'badstatus', 'badupdate', 'emptybadupdate', 'waiting', 'corrupt', 'readonly', 'sysexit')
 HANG_S = 6.0
 
 
@@ -46,6 +46,8 @@ def _mk_tasks(n, edges, outcomes, log, gate=None):
                 return payload, TaskStatus.FAILED
             if o == 'raise':
                 raise RuntimeError('probe failure')
+            if o == 'sysexit':
+                sys.exit(3)                       # user code calling sys.exit(): SystemExit is not an Exception
             if o == 'none':
                 return None
             if o == 'notpair':
@@ -60,6 +62,9 @@ def _mk_tasks(n, edges, outcomes, log, gate=None):
                 return payload, TaskStatus.WAITING
             if o == 'corrupt':
                 return {self.name: 5}, TaskStatus.DONE
+            if o == 'readonly':
+                import types                      # a Mapping that is not a MutableMapping as the task's own entry
+                return {self.name: types.MappingProxyType({'payload': 1})}, TaskStatus.DONE
             raise AssertionError(o)
 
     tasks = []
